@@ -80,6 +80,16 @@ func genStream(r *Rng, mk func(i int) []byte) ([]byte, string) {
 	case 8: // trailing bytes behind a well-formed request inside the frame
 		frames[k] = append(frames[k], tameHead(r.Bytes(1+r.Intn(12)))...)
 		return join(), "request-then-garbage"
+	case 10: // an empty frame directly in front of a refused size prefix and more bytes (TFramedTransport.Read's tmp branch)
+		var s []byte
+		for i, f := range frames {
+			if i == k {
+				s = append(s, 0, 0, 0, 0)
+				s = append(s, be32(uint32(r.Pick(framedMax+1, 1<<31, 1<<32-1)))...)
+			}
+			s = append(s, framed(f)...)
+		}
+		return s, "empty-then-refused-size"
 	case 9: // headers without an op id / with an op id that is not a number
 		frames[k] = mutateOpID(r, frames[k])
 		return join(), "opid"
